@@ -45,9 +45,10 @@ def bodies(rnd: random.Random, n_random: int = 40):
 
     def diblist(i):
         pool = [devinfo(i), families(k.DIBSuppSVCFamilies, i), families(k.DIBSecuredServiceFamilies, i + 1), tinfo(i), generic(i)]
+        pool = pool[i % 5:] + pool[: i % 5]          # every DIB kind occurs in first, middle and last position
         return pool[: 1 + i % 5] if i % 7 else []
 
-    for i in range(8):
+    for i in range(16):
         for cls in (k.SearchResponse, k.SearchResponseExtended):
             b = cls(control_endpoint=hp[i % 4])
             b.dibs = diblist(i)
